@@ -36,6 +36,7 @@ structure Rec where
   name : Key          -- MD_LOOKUP_KEY
   rendered : Key      -- MD_RENDERED_NAME
   objects : List Key  -- MD_OBJECTS (`[]` = None)
+  ridx : Option Nat := none   -- MD_RESULT_MAP_INDEX (position in compiled._result_columns)
 deriving Repr, DecidableEq
 
 inductive Look
@@ -85,18 +86,38 @@ def lookup (raw : List Rec) (numCtx : Nat) (k : Key) : Look :=
 def allKeys (raw : List Rec) : List Key :=
   raw.flatMap (fun r => r.name :: r.rendered :: r.objects)
 
-/-- `idx in keymap_by_position`: the record of result-map position `p` is still the value
-    of some key of the keymap (it is not when all its keys went to the ambiguous record) -/
-def adaptable (raw : List Rec) (numCtx : Nat) (p : Nat) : Bool :=
-  (allKeys raw).any (fun k => lookup raw numCtx k == .found p)
+/-- Python dict assignment: an existing key keeps its position, a new key is appended -/
+def dictSet {V : Type} (d : List (Key × V)) (k : Key) (v : V) : List (Key × V) :=
+  if d.any (fun e => e.1 == k) then d.map (fun e => if e.1 == k then (k, v) else e) else d ++ [(k, v)]
+
+/-- `self._keymap` as the ordered dict the constructor builds (`none` = the ambiguous record,
+    whose MD_RESULT_MAP_INDEX is -1): objects first, then `update(by_key)` -/
+def orderedKeymap (raw : List Rec) (numCtx : Nat) : List (Key × Option Rec) :=
+  let byName : List (Key × Option Rec) := raw.foldl (fun d r => dictSet d r.name (some r)) []
+  if numCtx = 0 then byName
+  else
+    let dup := dupesBranch raw numCtx
+    let objs : List (Key × Option Rec) :=
+      raw.foldl (fun d r => r.objects.foldl (fun d o => if dup && isDupe raw o then d else dictSet d o (some r)) d) []
+    let byKey : List (Key × Option Rec) :=
+      if dup then (allKeys raw).foldl (fun d k => if isDupe raw k then dictSet d k none else d) byName else byName
+    byKey.foldl (fun d e => dictSet d e.1 e.2) objs
+
+/-- `keymap_by_position = {rec[MD_RESULT_MAP_INDEX]: rec for rec in keymap.values()}`: the last
+    value (in dict order) with that result-map index -/
+def byPosition (raw : List Rec) (numCtx : Nat) (p : Nat) : Option Rec :=
+  ((orderedKeymap raw numCtx).reverse.findSome? (fun e =>
+    match e.2 with
+    | some r => if r.ridx == some p then some r else none
+    | none => none))
 
 /-- `self._keymap | {new: keymap_by_position[idx] for idx, new in
-    enumerate(invoked_statement._all_selected_columns) if idx in keymap_by_position}`
-    (positional strategies: MD_RESULT_MAP_INDEX = MD_INDEX) -/
+    enumerate(invoked_statement._all_selected_columns) if idx in keymap_by_position}` -/
 def lookupAdapted (raw : List Rec) (numCtx : Nat) (newCols : List Key) (k : Key) : Look :=
-  let cands := (enumFromAux newCols).filter (fun pc => pc.2 == k && adaptable raw numCtx pc.1)
+  let cands := (enumFromAux newCols).filterMap (fun pc =>
+    if pc.2 == k then byPosition raw numCtx pc.1 else none)
   match cands.getLast? with
-  | some pc => .found pc.1
+  | some r => .found r.idx
   | none => lookup raw numCtx k
 where
   enumFromAux (l : List Key) : List (Nat × Key) := (List.range l.length).zip l
@@ -109,7 +130,7 @@ def enumFrom {α : Type} : Nat → List α → List (Nat × α)
 
 /-- pure positional 1-1 case -/
 def mergePositional (rcs : List RC) : List Rec :=
-  (enumFrom 0 rcs).map (fun (i, rc) => { idx := i, name := rc.name, rendered := rc.keyname, objects := rc.objects })
+  (enumFrom 0 rcs).map (fun (i, rc) => { idx := i, name := rc.name, rendered := rc.keyname, objects := rc.objects, ridx := some i })
 
 /-- `_merge_textual_cols_by_position`; `none` = "Duplicate column expression requested" -/
 def mergeTextual (rcs : List RC) : List (Nat × Key) → List Key → Option (List Rec)
@@ -121,34 +142,35 @@ def mergeTextual (rcs : List RC) : List (Nat × Key) → List Key → Option (Li
       if seen.contains o0 then none
       else
         match mergeTextual rcs rest (o0 :: seen) with
-        | some l => some ({ idx := i, name := col, rendered := col, objects := rc.objects } :: l)
+        | some l => some ({ idx := i, name := col, rendered := col, objects := rc.objects, ridx := some i } :: l)
         | none => none
     | none =>
       match mergeTextual rcs rest seen with
       | some l => some ({ idx := i, name := col, rendered := col, objects := [] } :: l)
       | none => none
 
-/-- `_create_description_match_map`: key ↦ objects (a later entry with the same rendered
-    name appends its objects); `loose` adds every object as a key (setdefault) -/
-def matchMap (loose : Bool) : List RC → List (Key × List Key) → List (Key × List Key)
+/-- `_create_description_match_map`: key ↦ (objects, ridx); a later entry with the same
+    rendered name appends its objects and takes over the index; `loose` adds every object as a
+    key (setdefault) -/
+def matchMap (loose : Bool) : List (Nat × RC) → List (Key × List Key × Nat) → List (Key × List Key × Nat)
   | [], d => d
-  | rc :: rest, d =>
+  | (ri, rc) :: rest, d =>
     let d1 :=
       if d.any (fun e => e.1 == rc.keyname) then
-        d.map (fun e => if e.1 == rc.keyname then (e.1, e.2 ++ rc.objects) else e)
-      else d ++ [(rc.keyname, rc.objects)]
+        d.map (fun e => if e.1 == rc.keyname then (e.1, e.2.1 ++ rc.objects, ri) else e)
+      else d ++ [(rc.keyname, rc.objects, ri)]
     let d2 :=
       if loose then
-        rc.objects.foldl (fun acc o => if acc.any (fun e => e.1 == o) then acc else acc ++ [(o, rc.objects)]) d1
+        rc.objects.foldl (fun acc o => if acc.any (fun e => e.1 == o) then acc else acc ++ [(o, rc.objects, ri)]) d1
       else d1
     matchMap loose rest d2
 
 /-- `_merge_cols_by_name` -/
 def mergeByName (loose : Bool) (rcs : List RC) (desc : List Key) : List Rec :=
-  let mm := matchMap loose rcs []
+  let mm := matchMap loose (enumFrom 0 rcs) []
   (enumFrom 0 desc).map (fun (i, col) =>
     match mm.find? (fun e => e.1 == col) with
-    | some e => { idx := i, name := col, rendered := col, objects := e.2 }
+    | some e => { idx := i, name := col, rendered := col, objects := e.2.1, ridx := some e.2.2 }
     | none => { idx := i, name := col, rendered := col, objects := [] })
 
 /-- `_merge_cols_by_none` -/
